@@ -76,7 +76,9 @@ func (ab *AckBook) NewBatch(kind, chanKind string, n, parts int, recvDelay ...ti
 	for i := 0; i < n; i++ {
 		id := int(atomic.AddInt32(&ab.nextID, 1))
 		row := map[string]any{"id": id, "msg": fmt.Sprintf("row %d", id), "p": fmt.Sprintf("p%d", id%maxInt(parts, 1))}
-		if kind == "bad" && i == n-1 {
+		if kind == "bad" && (i == n-1 || (i == n-2 && parts >= 2 && id%4 < 2)) {
+			// the last row — and in half of the batches the row before it, which
+			// falls into another partition — cannot be marshaled
 			row["broken"] = make(chan int)
 		}
 		b.Rows = append(b.Rows, row)
